@@ -16,7 +16,7 @@ def run(ctx):
                        "before, after the delay}; TLC validates: published once (the broker's publication event + delivery to a watcher with QoS/RETAIN per "
                        "its subscription), not before min(delay, expiry) after the end (200 ms early tolerance), by 900 ms after, never after DISCONNECT 0x00 "
                        "nor after a resume before the delay; non-trivial = all scenarios")
-    scs = scen.c08_wills(rng, "s%d" % ctx.seed, 160 if quick else 1600)
+    scs = scen.with_props(rng, scen.c08_wills(rng, "s%d" % ctx.seed, 160 if quick else 1600), prob=0.5)   # will properties
     rejected, stats = trace_lib.validate(ctx, scs, "c08", invariants=INV, par=40)
     ctx.cov["traces_validated_against_impl"] += stats["validated"] + stats["rejected"]
     ctx.cov["evaluations"] += stats["events"]
